@@ -261,22 +261,34 @@ func verifHarness_FamMut(prop, fam, budget, maxList, mut, wrap int) {
 	}
 }
 
-// verifSameTokens: both texts lex to the same significant tokens (kinds, values; keyword case folded by the lexer).
+// verifSameTokens: both texts have the same significant tokens (kinds, values; keyword and
+// unquoted identifier case folded).  The judge is the reference lexer (zz_verif_h_c14.go), not
+// lexer.go: with the real lexer as judge a lexer that wrongly rejects some trivia (a form feed,
+// a no-break space) would also declare the re-spelling "not a re-spelling" and hide itself.
 func verifSameTokens(a, b string) bool {
-	ta, ok1 := verifSigTokens(a)
-	tb, ok2 := verifSigTokens(b)
+	ta, ok1 := verifRefLex(a)
+	tb, ok2 := verifRefLex(b)
 	if !ok1 || !ok2 || len(ta) != len(tb) {
 		return false
 	}
 	for i := range ta {
-		if ta[i].kind != tb[i].kind || ta[i].quoted != tb[i].quoted {
+		if ta[i].kind != tb[i].kind {
 			return false
 		}
-		if ta[i].kind == "<ident>" && !ta[i].quoted {
-			if !verifFoldEq(ta[i].val, tb[i].val) {
+		if ta[i].kind == "<ident>" {
+			qa := a[ta[i].pos] == '`'
+			qb := b[tb[i].pos] == '`'
+			if qa != qb {
 				return false
 			}
-		} else if ta[i].val != tb[i].val {
+			if !qa {
+				if !verifFoldEq(ta[i].val, tb[i].val) {
+					return false
+				}
+				continue
+			}
+		}
+		if ta[i].val != tb[i].val {
 			return false
 		}
 	}
